@@ -3,6 +3,7 @@ import Genshi.Wire
 import Genshi.Model.Exec
 import Genshi.Model.ExecGraph
 import Genshi.Model.ExecParse
+import Genshi.Model.ExecShape
 namespace Driver.C14
 open Genshi Genshi.Exec Genshi.Sexp
 
@@ -96,6 +97,24 @@ def errOut : Option Err → Sexp
   | some .diverge => .atom "diverge"
   | some .config => .atom "config"
   | some .unmodelled => .atom "unmodelled"
+
+mutual
+def sk? : Sexp → Option Sk
+  | .atom "V" => some .ev
+  | .atom "X" => some .exec
+  | .list (.atom "S" :: body) => (sklAux body).map .sub
+  | .list (.atom "I" :: fb) => (sklAux fb).map .incl
+  | _ => none
+def sklAux : List Sexp → Option (List Sk)
+  | [] => some []
+  | x :: xs => match sk? x, sklAux xs with
+      | some a, some b => some (a :: b)
+      | _, _ => none
+end
+
+def skl? : Sexp → Option (List Sk)
+  | .list xs => sklAux xs
+  | _ => none
 
 def natsOut (xs : List Nat) : Sexp := .list (xs.map ofNat)
 
@@ -208,6 +227,15 @@ def handle : List Sexp → Option Sexp
       let root ← root? root
       let chain ← chain.mapM parse?
       pure (.list ((prefixes (.root root) chain).map fun r => nodeOut (node cfg r)))
+  | [.atom "objskel", sk] => do
+      let sk ← skl? sk
+      pure (.list [ofBool (hasExecL sk), ofBool (flatExec sk), ofNat (execDepthL sk)])
+  | [.atom "reachshape", t, l, o, ar, root, .list chain, k] => do
+      let cfg ← cfg? t l o ar; let r ← root? root; let chain ← chain.mapM parse?; let k ← k.toNat?
+      pure (match reachRow cfg (chain.foldl Reach.incl (.root r)) k with
+        | none => .atom "none"
+        | some row => .list [clsOut row.cls, .atom (match row.err with | .none => "ok" | .syntax => "Syntax" | .other => "other"),
+            ofBool row.ran, ofBool row.execExists, ofBool row.flag])
   | [.atom "parseopt", o] => do let o ← opt? o; pure (optResOut (parseOpt o))
   | _ => none
 
